@@ -202,6 +202,13 @@ impl Prop for C07 {
             } else {
                 ops.push(AppOp::Read);
             }
+            // the application re-sends its ISI in mid-session (new flags, new interval) while
+            // frames — keep-alives among them — are already waiting in the receive buffer
+            if rng.chance(1, 10) {
+                if let Some(f) = gen::isi_frame(rng, mode) {
+                    ops.push(AppOp::Handshake(f));
+                }
+            }
         }
         ops.push(AppOp::Drain {
             max: (frames.len() + n_err + 3 + reads.iter().filter(|e| matches!(e, crate::scenario::ReadEv::Err(_)) || matches!(e, crate::scenario::ReadEv::Stall(ms) if *ms >= 90_000)).count()) as u32,
